@@ -826,7 +826,8 @@ def attr_model(self, e, base, st, spec):
     if isinstance(base, Ref):
         o = _heap(st, base)
         cls = o["$cls"]
-        q = self.method_contract(cls, e.attr)
+        q = self.c.calls.get(ast.unparse(e)) if not spec else None      # explicit binding of a property read to one contract variant
+        q = q or self.method_contract(cls, e.attr)
         if q is not None and self.registry[q].is_property:
             if spec:
                 raise EngineError(f"property {cls}.{e.attr} in a specification: use the view functions")
@@ -1538,7 +1539,7 @@ Engine.rec_setattr = rec_setattr
 
 def rec_attr_model(self, e, base, st, spec):
     if isinstance(base, Rec) and e.attr not in base.fields and not spec:
-        q = self.method_contract(base.cls, e.attr)
+        q = self.c.calls.get(ast.unparse(e)) or self.method_contract(base.cls, e.attr)
         if q is not None and self.registry[q].is_property:
             return self.call_contract(q, e, st, recv=base, argvals=[])
     return NotImplemented
